@@ -119,7 +119,7 @@ class H(Hooks):
 
 def budget(tier):
     if tier == 'quick':
-        return dict(examples=4000, wall=100)
+        return dict(examples=6000, wall=100)
     return dict(examples=120000, wall=1500)
 
 
